@@ -17,13 +17,14 @@ position to `d`.  Hence a variable with no recorded read is one the script never
 the script reads always has a recorded read. -/
 theorem C02_used_iff [Core.NameFilter] (b : Block) (d : Nat) :
     (∃ t, (t, some d) ∈ (Core.analyse b).answers) ↔
-      ∃ oc ∈ (Spec.resolve b).occs, SpecProof.counted oc = true ∧ oc.binding.map (·.1) = some d := by
+      ∃ oc ∈ (Spec.resolve b).occs, SpecProof.counted oc = true ∧ Core.NameFilter.read oc.name = true ∧
+        oc.binding.map (·.1) = some d := by
   constructor
   · rintro ⟨t, h⟩
-    obtain ⟨oc, h1, h2, _, h4⟩ := (C01.C01_resolution_mem b t (some d)).mp h
-    exact ⟨oc, h1, h2, h4⟩
-  · rintro ⟨oc, h1, h2, h3⟩
-    exact ⟨oc.tok, (C01.C01_resolution_mem b oc.tok (some d)).mpr ⟨oc, h1, h2, rfl, h3⟩⟩
+    obtain ⟨oc, h1, h2, h2', _, h4⟩ := (C01.C01_resolution_mem b t (some d)).mp h
+    exact ⟨oc, h1, h2, h2', h4⟩
+  · rintro ⟨oc, h1, h2, h2', h3⟩
+    exact ⟨oc.tok, (C01.C01_resolution_mem b oc.tok (some d)).mpr ⟨oc, h1, h2, h2', rfl, h3⟩⟩
 
 def analyzedOf (σ : St) (argObserves : List String → Nat → Option Bool) (v : Variable) : List Analyzed :=
   v.references.filterMap fun id => (σ.refs[id]?).map (analyzeRef σ argObserves v)
